@@ -170,27 +170,21 @@ theorem C19_single_unparse (cs : ParserInst) (hc : cs.cls = "CoAPParser") (hsem 
       ∀ pl : ABuf, packetUnparse [cs] (pairs hm.fields ++ [(Gen.payloadId, pl)]) = .ok (pairs hs.fields ++ [(Gen.payloadId, pl)]) :=
   unparse_semantic_single cs hc hsem fuel b hside hs hp3 hwf
 
-/-- whatever the shape of the stack — a header class listed twice (tunnels), next-header prediction, fields in any
-    order —, as long as no CoAP parser is in semantic mode `PacketParser.unparse` returns every field exactly once
-    (each field is taken by the first parser whose name its id contains, the rest follows; fix 3 of the path) -/
-theorem C19_unparse_nothing_lost (ps : List ParserInst) (names : List String) (hn : ps.mapM parserNameOf = .ok names)
-    (h : ∀ p ∈ ps, PlainUnparse p) (fs : Compute.Fields) :
-    ∃ out, packetUnparse ps fs = .ok out ∧ out.Perm fs :=
-  packetUnparse_plain_perm ps names hn h fs
+/-- whatever the shape of the stack — a header class listed twice or again after another header (IP in IP, IP in UDP
+    in IP), next-header prediction —, as long as no CoAP parser is in semantic mode `PacketParser.unparse` is the
+    identity: every field once, in the order given (each parser takes the leading run of fields carrying its name, the
+    rest follows; repairs d76d13d and its successor) -/
+theorem C19_unparse_identity (ps : List ParserInst) (names : List String) (hn : ps.mapM parserNameOf = .ok names)
+    (h : ∀ p ∈ ps, PlainUnparse p) (fs : Compute.Fields) : packetUnparse ps fs = .ok fs :=
+  packetUnparse_plain ps names hn h fs
 
-/-- a one-parser stack (what `factory("IPv6")`, `factory("UDP")` … build, with next-header prediction) used as unparser:
-    its own header's fields followed by the predicted headers' fields and the payload come back unchanged, in order -/
-theorem C19_unparse_predictive (p : ParserInst) (n : String) (hn : parserNameOf p = .ok n) (h : PlainUnparse p)
-    (A B : Compute.Fields) (hA : ∀ x ∈ A, strContains x.1 n = true) (hB : ∀ x ∈ B, strContains x.1 n = false) :
-    packetUnparse [p] (A ++ B) = .ok (A ++ B) :=
-  packetUnparse_single_plain p n hn h A B hA hB
-
-/-- non-vacuity: an IPv6-in-IPv6 tunnel stack keeps each of the two headers' fields once, in order -/
+/-- non-vacuity: IPv6 in UDP in IPv6 — both header classes twice, interleaved — comes back in order -/
 example :
     let ip : ParserInst := ⟨"IPv6Parser", false, .syntactic⟩
+    let udp : ParserInst := ⟨"UDPParser", false, .syntactic⟩
     let v : ABuf := ⟨[false, true, true, false], .left⟩
-    packetUnparse [ip, ip] [("IPv6:Version", v), ("IPv6:Hop Limit", v), ("IPv6:Version", v), ("UDP:Length", v), ("Payload", v)] =
-      .ok [("IPv6:Version", v), ("IPv6:Hop Limit", v), ("IPv6:Version", v), ("UDP:Length", v), ("Payload", v)] := by decide +kernel
+    packetUnparse [ip, udp, ip, udp] [("IPv6:Version", v), ("UDP:Length", v), ("IPv6:Hop Limit", v), ("UDP:Checksum", v), ("Payload", v)] =
+      .ok [("IPv6:Version", v), ("UDP:Length", v), ("IPv6:Hop Limit", v), ("UDP:Checksum", v), ("Payload", v)] := by decide +kernel
 
 /-- non-vacuity of the stack theorems: IPv6 / UDP / CoAP GET with Uri-Path "a" and payload "abc" -/
 example :
